@@ -54,7 +54,8 @@ pub struct Case {
 }
 
 fn gen_plain_text(g: &mut G<'_>) -> String {
-    let t = match g.weighted(&[4, 4, 2, 1]) {
+    let t = match g.weighted(&[8, 8, 4, 2, 1]) {
+        4 => gen_prefixed_builtin(g),
         0 => g.pick(&["SELECT 1", "INSERT INTO t VALUES (1)", "select * from foo", "SHOW TABLES", "x", "", "\u{0}", "SELECT 'USE x'", "-- use db"]).to_string(),
         1 => gen_string(g, false),
         // look-alikes that are neither a system-variable probe nor a USE statement
@@ -304,7 +305,7 @@ impl Prop for C02 {
         "C02"
     }
     fn rule(&self) -> String {
-        "cases = sequences of 0-40 commands over {QUERY, PREPARE, EXECUTE, SEND_LONG_DATA, CLOSE, INIT_DB, FIELD_LIST, PING, QUIT}. Query text comes from classes kept apart so the oracle never demands more than the property says: (A) built-in as the property spells them (`SELECT @@`/`select @@` + arbitrary tail; `USE `/`use ` + optional blanks + bare or back-quoted name (quoted names may contain spaces and ';') + optional ';' + optional trailing whitespace); (B) certainly not built-in (arbitrary UTF-8 incl. NUL and multi-byte, up to 20 KB, and look-alikes such as `SELECT @x`, `SELEC @@`, `USER()`, `USEFUL`, `use_db`); (C) grey spellings (`SeLeCt @@x`, `select@@x`, `USE\\tdb`, leading blanks) that may go either way; plus query / prepare / init payloads that are not UTF-8. Statement ids are arbitrary u32 values chosen by the shim.  COM_INIT_DB names include ones with back-quotes, ';' and blanks at their edges (they are the name); the handshake response announces a generated character set (latin1, utf8, utf8mb4, binary, random) and max_packet_size, which must not change what the shim is shown.  The client stream is delivered under a generated read chunking, and in 1 of 4 cases one read is interrupted once with ErrorKind::Interrupted (the library may report or retry it; either way the shim must only see what the client sent). Oracle: executable model mapping the command list to the expected callback log (whole-log equality, so extra, missing or reordered callbacks all show). Non-trivial = >= 3 distinct command kinds, or a class-A USE, a look-alike, a grey or a non-UTF-8 item.".into()
+        "cases = sequences of 0-40 commands over {QUERY, PREPARE, EXECUTE, SEND_LONG_DATA, CLOSE, INIT_DB, FIELD_LIST, PING, QUIT}. Query text comes from classes kept apart so the oracle never demands more than the property says: (A) built-in as the property spells them (`SELECT @@`/`select @@` + arbitrary tail; `USE `/`use ` + optional blanks + bare or back-quoted name (quoted names may contain spaces and ';') + optional ';' + optional trailing whitespace); (B) certainly not built-in (arbitrary UTF-8 incl. NUL and multi-byte, up to 20 KB, and look-alikes such as `SELECT @x`, `SELEC @@`, `USER()`, `USEFUL`, `use_db`, or a built-in statement behind a byte order mark, zero-width space, control character or other non-blank character); (C) grey spellings (`SeLeCt @@x`, `select@@x`, `USE\\tdb`, leading blanks) that may go either way; plus query / prepare / init payloads that are not UTF-8. Statement ids are arbitrary u32 values chosen by the shim.  COM_INIT_DB names include ones with back-quotes, ';' and blanks at their edges (they are the name); the handshake response announces a generated character set (latin1, utf8, utf8mb4, binary, random) and max_packet_size, which must not change what the shim is shown.  The client stream is delivered under a generated read chunking, and in 1 of 4 cases one read is interrupted once with ErrorKind::Interrupted (the library may report or retry it; either way the shim must only see what the client sent). Oracle: executable model mapping the command list to the expected callback log (whole-log equality, so extra, missing or reordered callbacks all show). Non-trivial = >= 3 distinct command kinds, or a class-A USE, a look-alike, a grey or a non-UTF-8 item.".into()
     }
     fn assumptions(&self) -> Vec<String> {
         vec!["grey spellings (class C) are only required to arrive verbatim if they reach on_query and bare if they reach on_init".into()]
